@@ -35,10 +35,10 @@ explicitly named `…Old` definitions (with counterexample theorems in Props/C04
   * c04-13 a string that FastParseFloat reads as a number is that number for the Sum / Min / Max cells of the bucket
     (`Val.toCVWith (parseFast rnd)`; `foldRBStrOld`: every string was text — sum and avg ignored it, min / max compared it
     as text — while the statistics without a by clause counted it as a number).
-Still as found (known findings):
-  * the integer sum is an int64 and wraps; it becomes a float64 at the first float and stays one; getRange wraps too.
+  * c04-15 an integer sum that leaves int64 is continued as a float64, as at the first float (`addInt`; `addSumOld`: it
+    wrapped around), and getRange answers with a float64 when max − min does not fit (`rangeOfOld`: wrapped).
 
-Numbers.  `Num.int` is an int64 (every addition is wrapped explicitly with `wrapS64`).  float64 values are EXACT
+Numbers.  `Num.int` is an int64 (the additions test the int64 range explicitly: `fitsI64`, `wrapS64`).  float64 values are EXACT
 RATIONALS; every float64 operation of the code is `rnd (exact result)` where `rnd : Rat → Rat` is a parameter of
 the model: the Oracle instantiates it with `roundF64` (IEEE-754 round-to-nearest-even, below), the theorems in
 Props/C04.lean with the identity (exact arithmetic — the rounding latitude the property statement grants for
@@ -313,13 +313,27 @@ deriving DecidableEq, Repr
 /-- GetDefaultNumStats -/
 def defaultNum : NumStats := ⟨0, .int 0⟩
 
+/-- the value is an int64 -/
+def fitsI64 (x : Int) : Bool := decide (-9223372036854775808 ≤ x ∧ x ≤ 9223372036854775807)
+
+/-- NumTypeEnclosure.AddToIntSum / the Sum case of Number.ReduceFast on two int64 (patch c04-15): `AddInt64` reports the
+overflow exactly when the exact sum is no int64; the sum is then continued as float64(a) + float64(i) -/
+def addInt (rnd : Rat → Rat) (a i : Int) : Num :=
+  if fitsI64 (a + i) then .int (a + i) else .flt (rnd (rnd a + rnd i))
+
 /-- the Sum update of processStats, which is also the Sum rule of NumericStats.Merge (stored `s`, incoming `v`) -/
 def addSum (rnd : Rat → Rat) (s v : Num) : Num :=
   match s, v with
   | .flt a, .flt f => .flt (rnd (a + f))
   | .int a, .flt f => .flt (rnd (rnd a + f))
   | .flt a, .int i => .flt (rnd (a + rnd i))
+  | .int a, .int i => addInt rnd a i
+
+/-- BEFORE patch c04-15 the int64 sum wrapped around -/
+def addSumOld (rnd : Rat → Rat) (s v : Num) : Num :=
+  match s, v with
   | .int a, .int i => .int (wrapS64 (a + i))
+  | _, _ => addSum rnd s v
 
 /-- processStats (both files): Count++, NumericCount++, UpdateMinMax, Sum -/
 def procNum (rnd : Rat → Rat) (st : SegStats) (ns : NumStats) (v : Num) : SegStats :=
@@ -476,8 +490,17 @@ def rangeOf (rnd : Rat → Rat) (mx mn : CV) : Option CV :=
   | .flt a, .flt b => some (.flt (rnd (a - b)))
   | .flt a, .int b => some (.flt (rnd (a - rnd b)))
   | .int a, .flt b => some (.flt (rnd (rnd a - b)))
-  | .int a, .int b => some (.int (wrapS64 (a - b)))
+  | .int a, .int b =>
+    -- patch c04-15: `diff := max - min` (int64, wraps); a negative diff means it did not fit
+    let d := wrapS64 (a - b)
+    if d < 0 then some (.flt (rnd (rnd a - rnd b))) else some (.int d)
   | _, _ => none
+
+/-- BEFORE patch c04-15: the wrapped int64 difference -/
+def rangeOfOld (rnd : Rat → Rat) (mx mn : CV) : Option CV :=
+  match mx, mn with
+  | .int a, .int b => some (.int (wrapS64 (a - b)))
+  | _, _ => rangeOf rnd mx mn
 
 def derive (rnd : Rat → Rat) : Option SegStats → Derived
   | none => ⟨none, none, none, none, none, none⟩
@@ -515,7 +538,7 @@ def sumStep (rnd : Rat → Rat) (s e : CV) : CV :=
   | .backfill => s0
   | .int i =>
     match s0 with
-    | .int a => .int (wrapS64 (a + i))
+    | .int a => (addInt rnd a i).toCV
     | .flt a => .flt (rnd (a + rnd i))
     | _ => .int i
   | .flt f =>
